@@ -195,6 +195,10 @@ def opLine (st : St) (cmd : List String) (ans : List String) : M St := do
       if parseNewId ans == some i && st.f.live i then pure { st with cr := bindVar st.cr v i }
       else throw s!"C07: crate_by_id({i}) returned a crate that is not live"
     | none, _ => throw "bad id"
+  | ["addforeign", _, _, _] =>
+    -- an entry of another database: no membership of this library changes, no listing of the crate API either
+    let _ ← succeeded ans
+    pure st
   | [c0, cv, tv] =>
     if c0 == "addtrack" || c0 == "addtrackid" then
       let c ← crVar st cv
@@ -333,9 +337,7 @@ def rawLine (chainsOnly : Bool) (ans : List String) : M Unit := do
       | _ => throw "unparsable Playlist row"
     let pe ← (← parseRows (← field "PlaylistEntity" peT)).mapM fun r => match r with
       | [i, l, t, n, mr, tag] => do
-        -- through the crate API every entry carries the library's own uuid (tag 0); the table-level
-        -- histories (chains only) may mix databases
-        if !chainsOnly && tag != "0" then throw s!"C11: PlaylistEntity row {i} carries a foreign database uuid"
+        -- tag 0 = the library's own uuid; other databases' entries are judged by `wfRaw` as such
         if mr != "0" then throw s!"C11: PlaylistEntity row {i} has membershipReference {mr}"
         pure (⟨← pInt i, ← pInt l, ← pInt n, ⟨← pInt t, ← pInt tag⟩⟩ : Db.Chain.Row Db.V2.Ent)
       | _ => throw "unparsable PlaylistEntity row"
